@@ -308,3 +308,33 @@ def r5(ctx: Ctx) -> None:
             if key(t) not in (want0, "None"):
                 ok = False
         ctx.check(ok, f, f.node, f"{q} is a pure view of priority_queue[0]", "return priority_queue[0](.price) or None; no stores", f"returns {sorted(set(rets))}; effects={len(st)}")
+
+
+def order_eq_rule(ctx: Ctx) -> None:
+    """Order.__eq__ must distinguish two different accepted orders of one book: equality
+    implies equal order ids (the book removes `the order equal to the top`)."""
+    f = ctx.func("Order.__eq__")
+    n = 0
+    for p in normal_paths(ctx.paths(f.qualname)):
+        if p.exit[0] != "return":
+            continue
+        n += 1
+        r = strip_ver(p.exit[1])
+        conj = list(r[2]) if r[0] == "bool" and r[1] == "and" else [r]
+        # decisions taken true on the path are conjuncts too (if a != b: return False ...)
+        conj += [strip_ver(c) if pol else ("not", strip_ver(c)) for c, pol, _ in p.conds]
+        has_id = any(c[0] == "cmp" and c[1] == "==" and {key(c[2]), key(c[3])} == {"self.order_id", "other.order_id"} for c in conj)
+        if r == ("const", False):
+            continue
+        ctx.check(has_id, f, f.node, "two orders compare equal only if their order ids are equal", "self.order_id == other.order_id among the conjuncts", short(r)[:160])
+    ctx.require(n >= 1, "Order.__eq__: no returning path")
+    g = ctx.func("Order.__ne__")
+    for p in normal_paths(ctx.paths(g.qualname, auto_inline_trivial=False, inline_helpers=False)):
+        r = strip_ver(p.exit[1]) if p.exit[0] == "return" else NONE
+        ok = r[0] == "not" and r[1][0] == "call" and key(r[1][1]) == "self.__eq__"
+        ctx.check(ok, g, g.node, "!= is the negation of ==", "not self.__eq__(other)", short(r))
+
+
+@rule("C02.R6", "equality of orders is identity within a book (consistent with the strict order: distinct orders are never equal)", "T6/T9", floor=2)
+def r6(ctx: Ctx) -> None:
+    order_eq_rule(ctx)
